@@ -315,6 +315,7 @@ type outEdge struct {
 }
 
 type blockState struct {
+	pendingBindings []Val
 	fr    *Frame
 	st    *St
 	reach Term
